@@ -585,6 +585,17 @@ func (c *Conn) GracefulClose(timeout time.Duration) {
 	_ = c.cur.Close()
 }
 
+// CloseSoon ends the connection the graceful way when another go routine (the connection's handler) is reading from
+// it: the sending side is shut down at once, the socket is closed after the delay. It does not read itself - two
+// readers on one Conn would fight over the read deadline, and the loser blocks for as long as the winner asked for.
+func (c *Conn) CloseSoon(delay time.Duration) {
+	c.HalfClose()
+	go func() {
+		time.Sleep(delay)
+		_ = c.cur.Close()
+	}()
+}
+
 // HalfClose shuts down the sending side only and keeps reading.
 func (c *Conn) HalfClose() {
 	c.Note("half-close")
